@@ -381,7 +381,16 @@ func buildNode(p Prog, schemas []Schema, built []bigslice.Slice, k int, env Env)
 				if g, ok := Gate.Load().(chan struct{}); ok && g != nil {
 					<-g
 				}
-				return []reflect.Value{reflect.ValueOf(0), reflect.ValueOf(raise(n.Fail, env.Run, k)).Convert(tErr)}
+				m := 0
+				if n.Fail.WithRows {
+					for m < 2 && m < args[2].Len() && st.pos+m < len(rows) {
+						args[2].Index(m).Set(valueOf(n.Types[0], rows[st.pos+m][0]))
+						args[3].Index(m).SetInt(rows[st.pos+m][1])
+						m++
+					}
+					st.pos += m
+				}
+				return []reflect.Value{reflect.ValueOf(m), reflect.ValueOf(raise(n.Fail, env.Run, k)).Convert(tErr)}
 			}
 			want := pattern[(st.call+n.N2)%len(pattern)]
 			st.call++
